@@ -470,3 +470,82 @@ Proof.
     rewrite ref_span_wrapped by exact Hmid; rewrite rev_wrapped, ?revcomp_invol, ?ref_len_rev;
     f_equal; destruct trimmed; lia.
 Qed.
+
+(* ------------------------------------------------------------------ molecules: mirror symmetry *)
+Lemma mol_fold_mirror : forall L w rest cur,
+  fold_left mol_update (map (mirror_frag L w) rest) (L - w - cur) = L - w - fold_left mol_update rest cur.
+Proof.
+  intros L w rest. induction rest as [|f rest IH]; intro cur; [reflexivity|].
+  cbn [map fold_left]. rewrite <- IH. f_equal.
+  unfold mol_update, mirror_frag. cbn [fst snd]. destruct (fst f); cbn [negb]; lia.
+Qed.
+
+Lemma mol_site_mirror : forall L w frags,
+  mol_site (map (mirror_frag L w) frags) = option_map (fun s => L - w - s) (mol_site frags).
+Proof.
+  intros L w [|f rest]; [reflexivity|]. cbn [map mol_site option_map]. f_equal.
+  unfold mirror_frag at 2. cbn [snd]. apply mol_fold_mirror.
+Qed.
+
+Lemma chic_mol_ds_mirror : forall L w radius frags,
+  chic_mol_ds radius (map (mirror_frag L w) frags) = map (fun s => L - w - s) (chic_mol_ds radius frags).
+Proof.
+  intros L w radius frags. unfold chic_mol_ds. rewrite map_length, mol_site_mirror.
+  destruct ((0 <? radius) && (1 <? Z.of_nat (length frags))).
+  - destruct (mol_site frags); cbn [option_map]; [|reflexivity]. rewrite !map_map. reflexivity.
+  - rewrite !map_map. reflexivity.
+Qed.
+
+Lemma frag_site_forget : forall x, frag_site (forget_rr x) = frag_site x.
+Proof. intros [|o]; reflexivity. Qed.
+
+Lemma frag_site_mirror : forall L w x, frag_site (mirror_result L w x) = map (mirror_frag L w) (frag_site x).
+Proof.
+  intros L w [|o]; [reflexivity|]. unfold mirror_result, drop_rr, mirror_obs, frag_site.
+  cbn [o_cut_strand o_loc]. destruct (o_cut_strand o), (o_loc o); reflexivity.
+Qed.
+
+Definition mappable (r : read) : Prop := r_unmapped r = false /\ r_cigar r <> [].
+
+Lemma chic_frag_sites_mirror : forall c L rs, Forall mappable rs ->
+  chic_frag_sites c (map (mirror L) rs) = map (mirror_frag L 1) (chic_frag_sites c rs).
+Proof.
+  intros c L rs H. induction H as [|r rs [Hm Hc] _ IH]; [reflexivity|].
+  unfold chic_frag_sites in *. cbn [map flat_map]. rewrite map_app, IH. f_equal.
+  rewrite <- frag_site_mirror, <- frag_site_forget.
+  rewrite <- (chic_mirror c L r false None Hm Hc). reflexivity.
+Qed.
+
+Lemma nla_frag_sites_mirror : forall c L rs, Forall mappable rs ->
+  nla_frag_sites c (map (mirror L) rs) = map (mirror_frag L 4) (nla_frag_sites c rs).
+Proof.
+  intros c L rs H. induction H as [|r rs [Hm Hc] _ IH]; [reflexivity|].
+  unfold nla_frag_sites in *. cbn [map flat_map]. rewrite map_app, IH. f_equal.
+  rewrite <- frag_site_mirror, <- frag_site_forget.
+  rewrite <- (nla_mirror c L r false Hm Hc). reflexivity.
+Qed.
+
+Lemma chic_molecule_mirror : forall c L radius rs, Forall mappable rs ->
+  chic_mol_ds radius (chic_frag_sites c (map (mirror L) rs)) =
+  map (fun s => L - 1 - s) (chic_mol_ds radius (chic_frag_sites c rs)).
+Proof. intros. rewrite chic_frag_sites_mirror by assumption. apply chic_mol_ds_mirror. Qed.
+
+Lemma nla_molecule_mirror : forall c L rs, Forall mappable rs ->
+  mol_site (nla_frag_sites c (map (mirror L) rs)) =
+  option_map (fun s => L - 4 - s) (mol_site (nla_frag_sites c rs)).
+Proof. intros. rewrite nla_frag_sites_mirror by assumption. apply mol_site_mirror. Qed.
+
+(* the molecule site is the outermost fragment site: min on the forward strand, max on the reverse strand *)
+Lemma mol_fold_forward : forall rest cur, Forall (fun f => fst f = false) rest ->
+  fold_left mol_update rest cur = fold_left Z.min (map snd rest) cur.
+Proof.
+  induction rest as [|f rest IH]; intros cur H; [reflexivity|]. inversion H as [|? ? Hf Hr]; subst.
+  cbn [map fold_left]. rewrite IH by exact Hr. unfold mol_update. rewrite Hf. rewrite Z.min_comm. reflexivity.
+Qed.
+
+Lemma mol_fold_reverse : forall rest cur, Forall (fun f => fst f = true) rest ->
+  fold_left mol_update rest cur = fold_left Z.max (map snd rest) cur.
+Proof.
+  induction rest as [|f rest IH]; intros cur H; [reflexivity|]. inversion H as [|? ? Hf Hr]; subst.
+  cbn [map fold_left]. rewrite IH by exact Hr. unfold mol_update. rewrite Hf. rewrite Z.max_comm. reflexivity.
+Qed.
